@@ -10,18 +10,18 @@ use core::mem::ManuallyDrop;
 mod spec;
 use spec::*;
 
-/// The property's sentences on one (T, v) shape; returns whether v was accepted.
-/// (Not claimed here: "a rejected value is left unchanged" — inside a rejected
-/// composite the elements that ARE read-back shapes may be normalized.)
-fn check_shape(t: &FieldType, before: &FieldValue, v: &mut FieldValue) -> bool {
-    let member = spec_member(t, before);
-
-    let r = ManuallyDrop::new(t.validate_inner(v));
-    let accepted = r.is_ok();
+/// "nothing invalid gets in" / "what the documentation promises is accepted".
+fn generic_accept(accepted: bool, member: bool) {
     assert!(!accepted || member, "OBL:C13.shapes.nothing_invalid");
     assert!(!member || accepted, "OBL:C13.shapes.accepts_documented");
+    kani::cover!(accepted, "COVER:accepted");
+    kani::cover!(!accepted, "COVER:rejected");
+}
 
-    t.normalize(v);
+/// "returned in the declared variant, value unchanged", after `normalize`.
+/// (Not claimed here: "a rejected value is left unchanged" — inside a rejected
+/// composite the elements that ARE read-back shapes may be normalized.)
+fn generic_post(t: &FieldType, before: &FieldValue, v: &FieldValue, accepted: bool) {
     let r2 = ManuallyDrop::new(t.validate_inner(v));
     assert!(!accepted || spec_declared_variant(t, v), "OBL:C13.shapes.declared_variant");
     assert!(!accepted || r2.is_ok(), "OBL:C13.shapes.revalidates");
@@ -29,66 +29,31 @@ fn check_shape(t: &FieldType, before: &FieldValue, v: &mut FieldValue) -> bool {
     // normalize-then-validate is the order used at every materialization
     // boundary: normalization must not launder an invalid value into a valid one
     assert!(accepted || r2.is_err(), "OBL:C13.shapes.rejected_stays_rejected");
-
-    kani::cover!(accepted, "COVER:accepted");
-    kani::cover!(!accepted, "COVER:rejected");
-    accepted
 }
 
-macro_rules! shape {
-    ($name:ident, $unwind:expr, $t:expr, [$($p:ident : $pt:ty),*], $v:expr,
-     |$acc:ident, $after:ident| $extra:block) => {
-        #[kani::proof]
-        #[kani::unwind($unwind)]
-        #[kani::stub(alloc::fmt::format, stub_format)]
-        #[kani::stub(FieldValue::try_into_cbor, stub_try_into_cbor)]
-        #[kani::stub(FieldValue::json_from, stub_json_from)]
-        fn $name() {
-            $(let $p: $pt = kani::any();)*
-            let t = ManuallyDrop::new($t);
-            let before = ManuallyDrop::new($v);
-            let mut v = ManuallyDrop::new($v);
-            let $acc: bool = check_shape(&t, &before, &mut v);
-            let $after: &FieldValue = &v;
-            $extra;
-            kani::cover!(true, "COVER:reach");
-        }
-    };
-}
-
-/// As `check_shape`, without the second validation after normalize. Used for the
+/// As `generic_post`, without the second validation after normalize. Used for the
 /// shapes with an `Option` type below another composite, where a
 /// `validate_inner` call AFTER `normalize` did not finish (measured 300-600 s
 /// timeouts, with and without `--max-field-sensitivity-array-size 4096`; CBMC
 /// no longer constant-folds the value tag after exploring `normalize_at` two
-/// type levels down). "revalidates" and
-/// "rejected_stays_rejected" are NOT machine-checked for these shapes; instead
-/// the normalized result is pinned down exactly (per-shape obligation) and that
-/// canonical value is itself an input cell (`*_canon`).
-fn check_shape_nr(t: &FieldType, before: &FieldValue, v: &mut FieldValue) -> bool {
-    let member = spec_member(t, before);
-
-    let r = ManuallyDrop::new(t.validate_inner(v));
-    let accepted = r.is_ok();
-    assert!(!accepted || member, "OBL:C13.shapes.nothing_invalid");
-    assert!(!member || accepted, "OBL:C13.shapes.accepts_documented");
-
-    t.normalize(v);
+/// type levels down). "revalidates" and "rejected_stays_rejected" are NOT
+/// machine-checked for these shapes; instead the normalized result is pinned
+/// down exactly (per-shape obligation), that canonical value is itself an input
+/// cell (`*_canon`), and a rejected value must come back bit-identical (these
+/// shapes have a single re-typable element).
+fn generic_post_nr(t: &FieldType, before: &FieldValue, v: &FieldValue, accepted: bool) {
     assert!(!accepted || spec_declared_variant(t, v), "OBL:C13.shapes.declared_variant");
     assert!(!accepted || spec_same_value(before, v), "OBL:C13.shapes.value_preserved");
-    // these shapes have a single re-typable element, so a rejected value must come
-    // back bit-identical (hence still rejected, validate_inner being a function of
-    // its arguments)
     assert!(accepted || spec_unchanged(before, v), "OBL:C13.shapes.rejected_unchanged");
-
-    kani::cover!(accepted, "COVER:accepted");
-    kani::cover!(!accepted, "COVER:rejected");
-    accepted
 }
 
-macro_rules! shape_nr {
-    ($name:ident, $unwind:expr, $t:expr, [$($p:ident : $pt:ty),*], $v:expr,
-     |$acc:ident, $after:ident| $extra:block) => {
+/// One shape = one harness. `accept` states the shape's own acceptance sentence,
+/// `after` its own normalized result; they are asserted BEFORE the general
+/// sentences (Kani assumes an assertion after checking it, so of two assertions
+/// refuted by the same executions only the first is reported).
+macro_rules! shape_impl {
+    ($post:ident, $name:ident, $unwind:expr, $t:expr, [$($p:ident : $pt:ty),*], $v:expr,
+     accept: |$acc:ident| $pre:block, after: |$acc2:ident, $after:ident| $postb:block) => {
         #[kani::proof]
         #[kani::unwind($unwind)]
         #[kani::stub(alloc::fmt::format, stub_format)]
@@ -99,12 +64,30 @@ macro_rules! shape_nr {
             let t = ManuallyDrop::new($t);
             let before = ManuallyDrop::new($v);
             let mut v = ManuallyDrop::new($v);
-            let $acc: bool = check_shape_nr(&t, &before, &mut v);
-            let $after: &FieldValue = &v;
-            $extra;
+            let member = spec_member(&t, &before);
+            let r = ManuallyDrop::new(t.validate_inner(&v));
+            let accepted = r.is_ok();
+            {
+                let $acc: bool = accepted;
+                $pre;
+            }
+            generic_accept(accepted, member);
+            t.normalize(&mut v);
+            {
+                let $acc2: bool = accepted;
+                let $after: &FieldValue = &v;
+                $postb;
+            }
+            $post(&t, &before, &v, accepted);
             kani::cover!(true, "COVER:reach");
         }
     };
+}
+macro_rules! shape {
+    ($($rest:tt)*) => { shape_impl!(generic_post, $($rest)*); };
+}
+macro_rules! shape_nr {
+    ($($rest:tt)*) => { shape_impl!(generic_post_nr, $($rest)*); };
 }
 
 fn opt(t: FieldType) -> FieldType {
@@ -120,56 +103,49 @@ fn i64_max() -> u64 {
     0x7FFF_FFFF_FFFF_FFFF
 }
 
-/// after == [I64(a), I64(b)]
-fn is_i64_pair(v: &FieldValue, a: i64, b: i64) -> bool {
-    match v {
-        FieldValue::Array(vs) => {
-            vs.len() == 2
-                && matches!(&vs[0], FieldValue::I64(x) if *x == a)
-                && matches!(&vs[1], FieldValue::I64(x) if *x == b)
-        }
-        _ => false,
-    }
+/// v == [x, y] with the two given element predicates
+macro_rules! is_pair {
+    ($v:expr, $p0:pat $(if $g0:expr)?, $p1:pat $(if $g1:expr)?) => {
+        matches!($v, FieldValue::Array(vs) if vs.len() == 2
+            && matches!(&vs[0], $p0 $(if $g0)?)
+            && matches!(&vs[1], $p1 $(if $g1)?))
+    };
 }
 
 // ---- Option<Array[I64]>, two elements: element-wise acceptance / read-back ----
 shape!(c13_shape_opt_array_i64_pair, 4, opt(arr(vec![FieldType::I64])), [a: u64, b: i64],
     av(vec![FieldValue::U64(a), FieldValue::I64(b)]),
-    |acc, after| {
-        assert!(acc == (a <= i64_max()), "OBL:C13.shapes.elementwise");
-        assert!(!acc || is_i64_pair(after, a as i64, b), "OBL:C13.shapes.elementwise");
+    accept: |acc| { assert!(acc == (a <= i64_max()), "OBL:C13.shapes.elementwise"); },
+    after: |acc, after| {
+        assert!(
+            !acc || is_pair!(after, FieldValue::I64(x) if *x == a as i64, FieldValue::I64(y) if *y == b),
+            "OBL:C13.shapes.elementwise"
+        );
     });
 shape!(c13_shape_opt_array_i64_null, 4, opt(arr(vec![FieldType::I64])), [], FieldValue::Null,
-    |acc, after| {
-        assert!(acc && matches!(after, FieldValue::Null), "OBL:C13.shapes.nested_option");
-    });
+    accept: |acc| { assert!(acc, "OBL:C13.shapes.nested_option"); },
+    after: |_acc, after| { assert!(matches!(after, FieldValue::Null), "OBL:C13.shapes.nested_option"); });
 // Null inside a required slot
 shape!(c13_shape_array_i64_null_elem, 4, opt(arr(vec![FieldType::I64])), [a: u64],
     av(vec![FieldValue::U64(a), FieldValue::Null]),
-    |acc, _after| {
-        assert!(!acc, "OBL:C13.shapes.null_in_required_slot");
-    });
+    accept: |acc| { assert!(!acc, "OBL:C13.shapes.null_in_required_slot"); },
+    after: |_acc, _after| {});
 // ... but fine in an optional slot
 shape_nr!(c13_shape_array_opt_i64_mixed, 4, arr(vec![opt(FieldType::I64)]), [a: u64],
     av(vec![FieldValue::Null, FieldValue::U64(a)]),
-    |acc, after| {
-        assert!(acc == (a <= i64_max()), "OBL:C13.shapes.nested_option");
+    accept: |acc| { assert!(acc == (a <= i64_max()), "OBL:C13.shapes.nested_option"); },
+    after: |acc, after| {
         assert!(
-            !acc || matches!(after, FieldValue::Array(vs) if vs.len() == 2
-                && matches!(&vs[0], FieldValue::Null)
-                && matches!(&vs[1], FieldValue::I64(x) if *x == a as i64)),
+            !acc || is_pair!(after, FieldValue::Null, FieldValue::I64(x) if *x == a as i64),
             "OBL:C13.shapes.nested_option"
         );
     });
-
 shape_nr!(c13_shape_array_opt_i64_canon, 4, arr(vec![opt(FieldType::I64)]), [i: i64],
     av(vec![FieldValue::Null, FieldValue::I64(i)]),
-    |acc, after| {
-        assert!(acc, "OBL:C13.shapes.nested_option");
+    accept: |acc| { assert!(acc, "OBL:C13.shapes.nested_option"); },
+    after: |_acc, after| {
         assert!(
-            matches!(after, FieldValue::Array(vs) if vs.len() == 2
-                && matches!(&vs[0], FieldValue::Null)
-                && matches!(&vs[1], FieldValue::I64(x) if *x == i)),
+            is_pair!(after, FieldValue::Null, FieldValue::I64(x) if *x == i),
             "OBL:C13.shapes.nested_option"
         );
     });
@@ -177,93 +153,86 @@ shape_nr!(c13_shape_array_opt_i64_canon, 4, arr(vec![opt(FieldType::I64)]), [i: 
 // ---- tuple Array[I64, F32]: per-slot types, arity enforced ----
 shape!(c13_shape_tuple_i64_f32, 4, arr(vec![FieldType::I64, FieldType::F32]), [a: u64, x: f64],
     av(vec![FieldValue::U64(a), FieldValue::F64(x)]),
-    |acc, after| {
+    accept: |acc| {
         assert!(acc == (a <= i64_max() && spec_is_f32_widening(x)), "OBL:C13.shapes.elementwise");
+    },
+    after: |acc, after| {
         assert!(
-            !acc || matches!(after, FieldValue::Array(vs) if vs.len() == 2
-                && matches!(&vs[0], FieldValue::I64(p) if *p == a as i64)
-                && matches!(&vs[1], FieldValue::F32(q) if f64::from(*q) == x)),
+            !acc || is_pair!(after, FieldValue::I64(p) if *p == a as i64, FieldValue::F32(q) if f64::from(*q) == x),
             "OBL:C13.shapes.elementwise"
         );
     });
-// slots are positional: the same two values swapped are not a value of the tuple
+// slots are positional: the same two kinds of value swapped are not a value of the tuple
 shape!(c13_shape_tuple_swapped, 4, arr(vec![FieldType::I64, FieldType::F32]), [i: i64, y: f32],
     av(vec![FieldValue::F32(y), FieldValue::I64(i)]),
-    |acc, _after| {
-        assert!(!acc, "OBL:C13.shapes.elementwise");
-    });
+    accept: |acc| { assert!(!acc, "OBL:C13.shapes.elementwise"); },
+    after: |_acc, _after| {});
 shape!(c13_shape_tuple_arity1, 4, arr(vec![FieldType::I64, FieldType::F32]), [i: i64],
     av(vec![FieldValue::I64(i)]),
-    |acc, _after| {
-        assert!(!acc, "OBL:C13.shapes.arity_enforced");
-    });
+    accept: |acc| { assert!(!acc, "OBL:C13.shapes.arity_enforced"); },
+    after: |_acc, _after| {});
 // Three elements = a 96-byte heap buffer: needs the unit's
 // `--max-field-sensitivity-array-size` (CBMC's default limit of 64 loses the
 // element tags: 600 s timeout without it, 14 s with it).
 shape!(c13_shape_tuple_arity3, 5, arr(vec![FieldType::I64, FieldType::F32]), [i: i64, y: f32, j: i64],
     av(vec![FieldValue::I64(i), FieldValue::F32(y), FieldValue::I64(j)]),
-    |acc, _after| {
-        assert!(!acc, "OBL:C13.shapes.arity_enforced");
-    });
+    accept: |acc| { assert!(!acc, "OBL:C13.shapes.arity_enforced"); },
+    after: |_acc, _after| {});
 shape!(c13_shape_tuple_arity0, 4, arr(vec![FieldType::I64, FieldType::F32]), [],
     av(Vec::new()),
-    |acc, _after| {
-        assert!(!acc, "OBL:C13.shapes.arity_enforced");
-    });
+    accept: |acc| { assert!(!acc, "OBL:C13.shapes.arity_enforced"); },
+    after: |_acc, _after| {});
 
 // ---- Array[] (heterogeneous): nothing declared about the elements ----
 shape!(c13_shape_hetero_a, 4, arr(Vec::new()), [b: bool, u: u64],
     av(vec![FieldValue::Bool(b), FieldValue::U64(u)]),
-    |acc, after| {
-        assert!(acc, "OBL:C13.shapes.hetero_accepts_anything");
+    accept: |acc| { assert!(acc, "OBL:C13.shapes.hetero_accepts_anything"); },
+    after: |_acc, after| {
         // ... and nothing is re-typed
         assert!(
-            matches!(after, FieldValue::Array(vs) if vs.len() == 2
-                && matches!(&vs[0], FieldValue::Bool(p) if *p == b)
-                && matches!(&vs[1], FieldValue::U64(q) if *q == u)),
+            is_pair!(after, FieldValue::Bool(p) if *p == b, FieldValue::U64(q) if *q == u),
             "OBL:C13.shapes.hetero_accepts_anything"
         );
     });
 shape!(c13_shape_hetero_b, 4, arr(Vec::new()), [i: i64],
     av(vec![FieldValue::Null, FieldValue::I64(i)]),
-    |acc, _after| {
-        assert!(acc, "OBL:C13.shapes.hetero_accepts_anything");
-    });
+    accept: |acc| { assert!(acc, "OBL:C13.shapes.hetero_accepts_anything"); },
+    after: |_acc, _after| {});
 // ... but a non-array is still not an array
 shape!(c13_shape_hetero_scalar, 4, arr(Vec::new()), [u: u64], FieldValue::U64(u),
-    |acc, _after| {
-        assert!(!acc, "OBL:C13.shapes.hetero_accepts_anything");
-    });
+    accept: |acc| { assert!(!acc, "OBL:C13.shapes.hetero_accepts_anything"); },
+    after: |_acc, _after| {});
 
 // ---- Option<Option<U64>> ----
 shape_nr!(c13_shape_opt_opt_u64_some, 4, opt(opt(FieldType::U64)), [u: u64], FieldValue::U64(u),
-    |acc, after| {
-        assert!(acc && matches!(after, FieldValue::U64(x) if *x == u), "OBL:C13.shapes.nested_option");
+    accept: |acc| { assert!(acc, "OBL:C13.shapes.nested_option"); },
+    after: |_acc, after| {
+        assert!(matches!(after, FieldValue::U64(x) if *x == u), "OBL:C13.shapes.nested_option");
     });
 shape!(c13_shape_opt_opt_u64_null, 4, opt(opt(FieldType::U64)), [], FieldValue::Null,
-    |acc, after| {
-        assert!(acc && matches!(after, FieldValue::Null), "OBL:C13.shapes.nested_option");
-    });
+    accept: |acc| { assert!(acc, "OBL:C13.shapes.nested_option"); },
+    after: |_acc, after| { assert!(matches!(after, FieldValue::Null), "OBL:C13.shapes.nested_option"); });
 shape!(c13_shape_opt_opt_u64_i64, 4, opt(opt(FieldType::U64)), [i: i64], FieldValue::I64(i),
-    |acc, _after| {
-        assert!(!acc, "OBL:C13.shapes.nested_option");
-    });
+    accept: |acc| { assert!(!acc, "OBL:C13.shapes.nested_option"); },
+    after: |_acc, _after| {});
 
 // ---- Vector <-> Array[U64 <= 0xFFFF] ----
 shape!(c13_shape_vector_from_bits, 4, FieldType::Vector, [a: u64, b: u64],
     av(vec![FieldValue::U64(a), FieldValue::U64(b)]),
-    |acc, after| {
-        assert!(acc == (a <= 0xFFFF && b <= 0xFFFF), "OBL:C13.shapes.vector_bits");
+    accept: |acc| { assert!(acc == (a <= 0xFFFF && b <= 0xFFFF), "OBL:C13.shapes.vector_bits"); },
+    after: |acc, after| {
         assert!(
             !acc || matches!(after, FieldValue::Vector(vs) if vs.len() == 2
                 && vs[0].to_bits() as u64 == a && vs[1].to_bits() as u64 == b),
             "OBL:C13.shapes.vector_bits"
         );
+        // a rejected array of integers must not come back as a (truncated) Vector
+        assert!(acc || !matches!(after, FieldValue::Vector(_)), "OBL:C13.shapes.vector_bits");
     });
 shape!(c13_shape_vector_own, 4, FieldType::Vector, [p: u16, q: u16],
     FieldValue::Vector(vec![bf16::from_bits(p), bf16::from_bits(q)]),
-    |acc, after| {
-        assert!(acc, "OBL:C13.shapes.vector_bits");
+    accept: |acc| { assert!(acc, "OBL:C13.shapes.vector_bits"); },
+    after: |_acc, after| {
         assert!(
             matches!(after, FieldValue::Vector(vs) if vs.len() == 2
                 && vs[0].to_bits() == p && vs[1].to_bits() == q),
@@ -272,35 +241,29 @@ shape!(c13_shape_vector_own, 4, FieldType::Vector, [p: u16, q: u16],
     });
 shape!(c13_shape_vector_bad_elem, 4, FieldType::Vector, [a: u64, i: i64],
     av(vec![FieldValue::U64(a), FieldValue::I64(i)]),
-    |acc, _after| {
-        assert!(!acc, "OBL:C13.shapes.vector_bits");
-    });
+    accept: |acc| { assert!(!acc, "OBL:C13.shapes.vector_bits"); },
+    after: |_acc, _after| {});
 
 // ---- type nesting depth 3: Option<Array[Option<I64>]> — read-back shapes are
 // normalized below two composite levels, Null is accepted in the optional slot ----
 shape_nr!(c13_shape_depth3_mixed, 4, opt(arr(vec![opt(FieldType::I64)])), [a: u64],
     av(vec![FieldValue::Null, FieldValue::U64(a)]),
-    |acc, after| {
-        assert!(acc == (a <= i64_max()), "OBL:C13.shapes.elementwise");
+    accept: |acc| { assert!(acc == (a <= i64_max()), "OBL:C13.shapes.elementwise"); },
+    after: |acc, after| {
         assert!(
-            !acc || matches!(after, FieldValue::Array(vs) if vs.len() == 2
-                && matches!(&vs[0], FieldValue::Null)
-                && matches!(&vs[1], FieldValue::I64(x) if *x == a as i64)),
+            !acc || is_pair!(after, FieldValue::Null, FieldValue::I64(x) if *x == a as i64),
             "OBL:C13.shapes.elementwise"
         );
     });
 shape!(c13_shape_depth3_null, 4, opt(arr(vec![opt(FieldType::I64)])), [], FieldValue::Null,
-    |acc, after| {
-        assert!(acc && matches!(after, FieldValue::Null), "OBL:C13.shapes.nested_option");
-    });
+    accept: |acc| { assert!(acc, "OBL:C13.shapes.nested_option"); },
+    after: |_acc, after| { assert!(matches!(after, FieldValue::Null), "OBL:C13.shapes.nested_option"); });
 shape_nr!(c13_shape_depth3_canon, 4, opt(arr(vec![opt(FieldType::I64)])), [i: i64],
     av(vec![FieldValue::Null, FieldValue::I64(i)]),
-    |acc, after| {
-        assert!(acc, "OBL:C13.shapes.elementwise");
+    accept: |acc| { assert!(acc, "OBL:C13.shapes.elementwise"); },
+    after: |_acc, after| {
         assert!(
-            matches!(after, FieldValue::Array(vs) if vs.len() == 2
-                && matches!(&vs[0], FieldValue::Null)
-                && matches!(&vs[1], FieldValue::I64(x) if *x == i)),
+            is_pair!(after, FieldValue::Null, FieldValue::I64(x) if *x == i),
             "OBL:C13.shapes.elementwise"
         );
     });
